@@ -89,10 +89,25 @@ func (p *Program) encodeUnit(c *Contract) *UnitResult {
 	// global invariants of the unit's package and of the packages it imports
 	errs := []string{}
 	for _, g := range p.CS.Globals {
+		if g.Name != "" {
+			used := false
+			for _, u := range c.Uses {
+				if u == g.Name {
+					used = true
+				}
+			}
+			if !used {
+				continue
+			}
+		}
 		tp := p.typesByPath[g.Pkg]
 		env := &CEnv{e: e, vars: map[string]CVal{}, st: st0, old: st0, pkg: tp, errs: &errs}
 		e.assume("true", env.evalBool(g.Expr))
-		e.note("global invariant assumed: %s", g.Text)
+		if g.Name != "" {
+			e.note("axiom assumed (%s): %s", g.Name, g.Text)
+		} else {
+			e.note("global invariant assumed: %s", g.Text)
+		}
 	}
 	// requires
 	env0 := &CEnv{e: e, vars: f.params, st: st0, old: st0, pkg: fn.Pkg.Pkg, lets: c.Lets, errs: &errs}
@@ -168,14 +183,14 @@ func (p *Program) encodeUnit(c *Contract) *UnitResult {
 			}
 			sort.Strings(names)
 			for _, n := range names {
-				if strings.HasPrefix(n, "GH_") && false {
+				if matchPrefix(n, c.ModComps) {
 					continue
 				}
 				if fact := e.frameFact(n, st0, stF, f.modRefs(n)); fact != "" {
 					e.oblige("frame", fmt.Sprintf("%s#frame[%s]", c.Key(), n), "frame", reach, fact, c.Pos)
 				}
 			}
-			if stF.epoch != st0.epoch {
+			if stF.epoch != st0.epoch && !e.onlyPrefixHavocs(stF.epoch) {
 				e.oblige("frame", fmt.Sprintf("%s#frame[*]", c.Key()), "frame", reach, "false", c.Pos).Output = "the function calls code without a contract (full havoc); its frame cannot be established"
 			}
 		}
